@@ -124,7 +124,11 @@ func buildTree(x *xmss.XMSS) *xproj.Tree {
 	skSeed := s.SK[4:36]
 	pubSeed := s.SK[68:100]
 	if seamOn {
-		t := xproj.Build(h, s.HashFn, pubSeed, func(i uint32) []byte { return xproj.SeamLeaf(seamTag, i) })
+		mk := xproj.Build
+		if h >= 21 {
+			mk = xproj.BuildLight
+		}
+		t := mk(h, s.HashFn, pubSeed, func(i uint32) []byte { return xproj.SeamLeaf(seamTag, i) })
 		t.Seam = true
 		return t
 	}
@@ -137,6 +141,19 @@ func (k *keyObj) base(ev string) event {
 
 func (k *keyObj) emitState(e *event) {
 	s := xmss.VerifSnapshot(k.x)
+	if k.tree.Light { // no reverse index: the state is not projected (objects of such trees are never on the model)
+		s.Stack, s.Auth, s.Keep, s.Retain = make([]byte, len(s.Stack)), make([]byte, len(s.Auth)), make([]byte, len(s.Keep)), make([]byte, len(s.Retain))
+		for i := range s.TreeHash {
+			s.TreeHash[i] = xmss.VerifTreeHash{Node: make([]byte, 32)}
+		}
+		s.StackOffset = 0
+		for i := range s.StackLevels {
+			s.StackLevels[i] = 0
+		}
+		st := k.tree.ZeroState(&s)
+		e.St = &st
+		return
+	}
 	st := k.tree.ProjectState(&s)
 	e.St = &st
 }
@@ -201,7 +218,11 @@ func (k *keyObj) sign(m int) ([]byte, string) {
 			if si.Idx < 0 || si.Idx > 1<<31-1 {
 				si.Idx = 1<<31 - 1
 			}
-			si.Auth = k.tree.ProjectAll(sig[len(sig)-32*k.h:])
+			if k.tree.Light {
+				si.Auth = k.tree.ProjectAuth(uint32(si.Idx), sig[len(sig)-32*k.h:])
+			} else {
+				si.Auth = k.tree.ProjectAll(sig[len(sig)-32*k.h:])
+			}
 		}
 		d := sha256.Sum256(sig)
 		si.D = hex.EncodeToString(d[:12])
@@ -390,7 +411,10 @@ func tall(h int, hf xmss.HashFunction, seed [48]uint8, r *rand.Rand, tr *trace.B
 	k := newKey(x, nextFam(), nil, "seed", tr)
 	n := 1 << uint(h)
 	sigs := 0
-	stops := []int{0, 253, 1<<16 - 3, 1<<16 + 250, n/2 - 2, n - 3}
+	stops := []int{0, 253, 1<<16 - 3, 1<<16 + 250, n/4 - 2, n/2 - 2, n - 3}
+	if h >= 21 { // the far half of a very tall tree costs minutes of traversal: stop after the first quarter
+		stops = []int{0, 253, 1<<16 - 3, 1<<16 + 250, n/4 - 2}
+	}
 	m := 0
 	for _, s := range stops {
 		if s < 0 || s >= n || s < int(k.x.GetIndex()) {
@@ -403,6 +427,12 @@ func tall(h int, hf xmss.HashFunction, seed [48]uint8, r *rand.Rand, tr *trace.B
 			}
 			m++
 		}
+	}
+	if h >= 21 {
+		k.setIndex(uint32(n))
+		k.setIndex(^uint32(0))
+		k.drop(true)
+		return sigs
 	}
 	// exhausted (or nearly): the borders. Bounded: a key whose index does not advance must not hang the driver.
 	for q := 0; q < 12 && int(k.x.GetIndex()) < n; q++ {
